@@ -91,6 +91,11 @@ def regTable : List (Nat × Rule) := [
 /-- registers that never take the written value: DIV (any write resets the divider), LY (read-only) -/
 def volatileRegs : List Nat := [0xff04, 0xff44]
 
+/-- an I/O address with no hardware behind it (on a DMG, and outside the sound unit) -/
+def unmappedAddr (a : Nat) : Prop :=
+  0xff00 ≤ a ∧ a < 0xff80 ∧ ¬ apuAddr a ∧ (regTable.find? (·.1 == a)).isNone = true ∧ a ∉ volatileRegs
+instance (a : Nat) : Decidable (unmappedAddr a) := by unfold unmappedAddr; infer_instance
+
 /-- the rule of an address in scope:
     ordinary memory reads back what was written; FEA0-FEFF reads 00; a register follows its table entry;
     DIV reads 00 right after a write, LY is unspecified; every other I/O address reads FF and ignores writes -/
